@@ -300,6 +300,12 @@ class MPContext(BaseMPContext, StandardBaseContext):
         """
         a = ctx.__class__()
         a.prec = ctx.prec
+        # References to the companion contexts used by some functions
+        # (zetazero, siegelz, primepi2, ...); the clone does its own
+        # multiprecision work
+        a._mp = a
+        a._fp = getattr(ctx, '_fp', None)
+        a._iv = getattr(ctx, '_iv', None)
         return a
 
     # Several helper methods
